@@ -12,6 +12,7 @@
   re-opens of the directory at request boundaries, and plants sidecar-less files.
 -/
 import Emu.Gcs.FileStore
+import Emu.Proofs.LeafTie.LessThanPrefix
 
 namespace Emu.Props.C09
 open Emu Emu.Gcs Emu.Gcs.File
@@ -135,5 +136,17 @@ example :
     let l := copy (updateMeta (add l0 [97] [7] { contentType := [116] } 9) [97] { contentType := [117] } 2) [97] [99] 11
     (abs l).map (fun o => (o.name, o.content, o.gen, o.metagen, o.meta.contentType)) =
       [([97], [7], 9, 2, [117]), ([98], [1, 2], 5, 0, []), ([99], [7], 11, 1, [117])] := by decide
+
+/-! ### The file store's directory pruning (tie T1 for `lessThanPrefix`) -/
+
+/-- a name below a directory the file store's walk prunes (its path is `lessThanPrefix` the cursor
+    or the prefix) would not have contributed to the page -/
+theorem pruned_directories_lose_nothing (pfx delim cursor skip : Bytes) (max : Nat) (p : Page) (dir ext : Bytes)
+    (h : Emu.Generated.Leaf.lessThanPrefix dir cursor = true ∨ Emu.Generated.Leaf.lessThanPrefix dir pfx = true) :
+    Emu.Proofs.LeafTie.outward (pageStep pfx delim cursor skip max p (dir ++ ext)) = Emu.Proofs.LeafTie.outward p := by
+  rw [Emu.Proofs.LeafTie.lessThanPrefix_tie, Emu.Proofs.LeafTie.lessThanPrefix_tie] at h
+  exact Emu.Proofs.LeafTie.pruned_name_contributes_nothing pfx delim cursor skip max p dir ext h
+
+example : Emu.Generated.Leaf.lessThanPrefix [97] [98, 47] = true := by decide
 
 end Emu.Props.C09
